@@ -98,13 +98,13 @@ _E1 = {
             "between independently recounted optima"),
 }
 _E1_BUDGET = {  # (batches, examples per batch) for quick / thorough
-    "C01": ((64, 400), (640, 800)),
-    "C02": ((64, 300), (640, 700)),
-    "C03": ((64, 220), (640, 500)),
-    "C04": ((64, 250), (640, 500)),
-    "C05": ((64, 300), (640, 500)),
+    "C01": ((64, 520), (640, 800)),
+    "C02": ((64, 480), (640, 700)),
+    "C03": ((64, 350), (640, 500)),
+    "C04": ((64, 400), (640, 600)),
+    "C05": ((64, 540), (640, 700)),
     "C08": ((64, 100), (640, 200)),
-    "C09": ((64, 150), (640, 300)),
+    "C09": ((64, 210), (640, 300)),
     "C10": ((64, 250), (640, 500)),
 }
 for _pid, (_title, _tech) in _E1.items():
